@@ -3,6 +3,7 @@ tree whenever it answers True (through the proved witness checker spt_check)."""
 import itertools
 import random
 
+from . import common
 from .common import case, guarded, ordinal_instance, strict, rand_perm, snapshot, snap_diff
 
 ID = "C13"
@@ -587,6 +588,9 @@ def impl(c):
     from preflibtools.properties.subdomains.ordinal.singlepeaked.single_peaked_tree import is_single_peaked_on_tree
     alts, prof = c["payload"]
     inst = ordinal_instance([(strict(o), mu) for o, mu in prof], data_type="soc", alts=alts)
+    salt = common.salt_of(c["payload"])
+    if salt % 3 == 0:       # call / in-place edit / call: the same object held a decoy profile of the same shape first
+        inst, _ = common.prime_stale(inst, [is_single_peaked_on_tree], salt // 3)
     r = guarded(is_single_peaked_on_tree, inst)
     if r[0] != 0:
         return r
